@@ -2205,8 +2205,10 @@ chld_cb(EV_P_ ev_child *c, int UNUSED(revents))
 	c->rpid = c->pid = 0;
 	t->nsim--;
 
-	if (UNLIKELY(t->w.reschedule_cb == NULL && !t->nsim)) {
-		/* we promised taskB_cb to kill this guy */
+	if (UNLIKELY(t->w.reschedule_cb == NULL && !t->nsim &&
+		     !ev_is_pending(&t->w))) {
+		/* we promised taskB_cb to kill this guy
+		 * unless the final run is only just about to be started */
 		unsched(EV_A_ &t->w, 0);
 	}
 	free_chld(c);
@@ -2252,9 +2254,9 @@ task_cb(EV_P_ ev_periodic *w, int UNUSED(revents))
 	}
 
 	/* prepare for rescheduling */
-	if (UNLIKELY(w->reschedule_cb == NULL)) {
-		/* the child watcher will reap this task */
-		;
+	if (UNLIKELY(w->reschedule_cb == NULL && !t->nsim)) {
+		/* no child watcher is going to reap this task */
+		unsched(EV_A_ w, 0);
 	}
 	return;
 }
